@@ -11,7 +11,7 @@ import itertools
 
 from sa import fd
 from sa.model import AnalysisError, walk_no_nested, norm, call_name, mangle, Func
-from sa.util import module_resolver, self_calls, const_value, bound_arg
+from sa.util import module_resolver, self_calls, const_value, bound_arg, single_def_value
 from sa.consteval import TOP, Evaluator
 from .roles import ClientRoles
 from .c10 import (authenticator, mechanisms, sender_sites, selection_feeders, selection_slice, selection_timing, tls_method,
@@ -193,6 +193,8 @@ def run(ctx):
     for c in disp_calls:
         names = []
         for a in c.args:
+            if isinstance(a, ast.Name) and a.id not in auth.params:
+                a = single_def_value(auth, a.id) or a  # the encoded value held in a local first
             if isinstance(a, ast.Call) and isinstance(a.func, ast.Attribute) and a.func.attr == "encode" \
                     and isinstance(a.func.value, ast.Name) and a.args and const_value(ctx.program, auth, a.args[0]) in ("utf-8", "utf8"):
                 names.append(a.func.value.id)
